@@ -9,7 +9,8 @@ steps: worktree of /repo HEAD -> demo passes on clean tree -> apply patch -> bas
 import json, os, shutil, subprocess, sys, tempfile
 
 ID, var, patch, demo, checks = sys.argv[1:6]
-CHECKS_ONLY = len(sys.argv) > 6 and sys.argv[6] == "--checks-only"     # keep the recorded worktree validation, re-run the checks only
+CHECKS_ONLY = len(sys.argv) > 6 and sys.argv[6] == "--checks-only"      # keep the recorded worktree validation, re-run the checks only
+NO_CHECKS = len(sys.argv) > 6 and sys.argv[6] == "--no-checks"      # worktree validation only (safe to run several at once); checks via tools/recheck_seeds.py
 checks = [c for c in checks.split(",") if c]
 out = f"/verif/seeded/{ID}_{var}"
 os.makedirs(out, exist_ok=True)
@@ -60,7 +61,9 @@ else:
 
 # run the checks against /repo with the patch applied, then undo
 meta["checks"] = {}
-if meta.get("patch_applies"):
+if NO_CHECKS:
+    meta["checks"] = {c: {"exit": None, "lines": []} for c in checks}
+elif meta.get("patch_applies"):
     a = sh(f"git -C /repo apply {patch}")
     try:
         if a.returncode == 0:
